@@ -115,6 +115,9 @@ type c17World struct {
 	ctx   [2][]string // per pattern, per site: the `(c …)` S-expression (atoms filled in later)
 	facts [2][]map[string]*c17Cap
 	dir   string
+	// prev: an earlier revision of the same file name with another line layout, in a file set of its own.  Every
+	// engine is run on it first (reports discarded): what a run reports must not depend on what the engine analysed before.
+	prev *hx.Target
 }
 
 type c17EF struct {
@@ -287,6 +290,10 @@ func c17NewWorld(seed int64, thorough bool) (*c17World, error) {
 		return nil, fmt.Errorf("target: %v", err)
 	}
 	w := &c17World{t: t, sizes: types.SizesFor("gc", runtime.GOARCH), dir: dir}
+	prevSrc := "/* revision 0 */ " + strings.ReplaceAll(strings.ReplaceAll(src, ",\n\t\t", ", "), "}\n\n", "}\n// gap\n// gap\n\n")
+	if w.prev, err = hx.ParseTargetMem(t.Name, prevSrc); err != nil {
+		return nil, fmt.Errorf("previous revision of the target: %v", err)
+	}
 	for _, d := range t.File.Decls {
 		fd, ok := d.(*ast.FuncDecl)
 		if !ok || !strings.HasPrefix(fd.Name.Name, "s") || fd.Body == nil || len(fd.Body.List) != 1 {
@@ -629,6 +636,11 @@ func (r *c17Run) observe(e *ruleguard.Engine, pat int, perSite bool) (c17Outcome
 	out := c17Outcome{load: "ok", end: "-", orderOK: true}
 	st := ruleguard.NewRunnerState(e) // one state per engine, as a long-lived linter process has
 	sites := r.w.sites[pat]
+	if r.w.prev != nil {
+		if _, _, _, err := hx.Run(e, r.w.prev, hx.RunOpts{State: st}); err != nil {
+			return out, err
+		}
+	}
 	reps, pk, _, err := hx.Run(e, r.w.t, hx.RunOpts{State: st})
 	if err != nil {
 		return out, err
@@ -1168,6 +1180,9 @@ func (cs *c17Case) input(r *c17Run) map[string]interface{} {
 	}
 	if cs.out.errText != "" {
 		in["load"] = cs.out.errText
+	}
+	if r.w.prev != nil {
+		in["history"] = "the engine (one RunnerState) was first run on an earlier revision of the same file name with another line layout, parsed into a file set of its own"
 	}
 	return in
 }
